@@ -103,6 +103,10 @@ structure ReaderI (ρ : Type) where
   readBinary : ρ → Int → GM ((Bytes × Int × GoErr) × ρ)
   readLen : ρ → Int
 
+/-- the behaviour of a `SkipDecoderIface` value (the back end of the generic skip decoder): `SkipN(n)` -/
+structure SkipNI (ρ : Type) where
+  skipN : ρ → Int → GM ((Bytes × GoErr) × ρ)
+
 /-- `dirtmake.Bytes(n, n)`: a fresh slice of length n with arbitrary contents (zeros here); a negative length panics -/
 def dirtyBytes (n : Int) : GM Bytes :=
   if n < 0 then .panic "makeslice" else .ok (List.replicate n.toNat 0)
